@@ -4,6 +4,7 @@
 package fx
 
 import (
+	"errors"
 	"sort"
 	"sync"
 	"time"
@@ -124,15 +125,33 @@ type Net struct {
 	mu   sync.Mutex
 	Msgs []*spectypes.SSVMessage
 	Hook func(*spectypes.SSVMessage)
+	// FailNext > 0: the next Broadcast publishes the message (it is recorded) but reports an error to the caller,
+	// as a publish that reached the wire and then timed out does. LoseNext > 0: the message is lost and an error reported.
+	FailNext, LoseNext int
 }
+
+// ErrBroadcast is the injected broadcast error.
+var ErrBroadcast = errors.New("injected broadcast failure")
 
 func (n *Net) Broadcast(m *spectypes.SSVMessage) error {
 	n.mu.Lock()
+	if n.LoseNext > 0 {
+		n.LoseNext--
+		n.mu.Unlock()
+		return ErrBroadcast
+	}
 	n.Msgs = append(n.Msgs, m)
 	h := n.Hook
+	fail := n.FailNext > 0
+	if fail {
+		n.FailNext--
+	}
 	n.mu.Unlock()
 	if h != nil {
 		h(m)
+	}
+	if fail {
+		return ErrBroadcast
 	}
 	return nil
 }
